@@ -279,9 +279,9 @@ func staleCtxSweep(c *Ctx) {
 	rounds := 3
 	runs, reads := 0, 0
 	reported := map[string]bool{}
-	for li, lv := range leavers {
-		for ti, tk := range takers {
-			for k := 1; k <= 3; k++ {
+	for k := 1; k <= 3; k++ { // fewest events first, so that the first witness of a failure is a small one
+		for li, lv := range leavers {
+			for ti, tk := range takers {
 				for round := 0; round < rounds; round++ {
 					tag := fmt.Sprintf("STALE(leaver %d, %d open)", li, k)
 					stale := context.WithValue(context.Background(), ctxKey{}, tag)
